@@ -7,6 +7,9 @@ import Tumfl.Props.C05
 #print axioms Tumfl.Props.C09_parser_errors
 #print axioms Tumfl.Props.C09_no_assertion
 #print axioms Tumfl.Props.C09_parse_total
+#print axioms Tumfl.Props.C09_parser_terminates
+#print axioms Tumfl.Props.C09_fuel_irrelevant
+#print axioms Tumfl.Props.C09_parse_total_final
 #print axioms Tumfl.Props.C09_no_index_error
 #print axioms Tumfl.Props.C05_rejects_cleanly
 #print axioms Tumfl.Props.C05_terminates
